@@ -263,7 +263,10 @@ def run_case(w, c):
             try:
                 M = w.Money
                 sym = 'U' + c['id'].split(':')[-1]
-                cur = M.new_unit(sym, 'user currency', None, mk_value(c['sfv']))
+                if c.get('minor') is not None:
+                    cur = M.new_unit(sym, 'user currency', c['minor'])
+                else:
+                    cur = M.new_unit(sym, 'user currency', None, mk_value(c['sfv']))
                 o = dict(st='err', ongrid=False, R=[], neg=False)
                 try:
                     if c['how'] == 'str':
